@@ -90,10 +90,11 @@ const (
 	kNotFound
 	kNoMethod
 	kOptions
-	kEncSlash // route(inherits) reached by a target with an escaped slash (RawPath set)
-	kEncByte  // route(inherits) reached by a target with a needlessly escaped byte (RawPath set)
-	kQuery    // route(inherits) with a query string
-	kMounted  // route(inherits) whose handler delegates to a second router, passing its own writer
+	kEncSlash  // route(inherits) reached by a target with an escaped slash (RawPath set)
+	kEncByte   // route(inherits) reached by a target with a needlessly escaped byte (RawPath set)
+	kQuery     // route(inherits) with a query string
+	kMounted   // route(inherits) whose handler delegates to a second router, passing its own writer
+	kSetWriter // route(inherits) whose handler attaches another ResponseWriter (Context.SetWriter) before answering
 	nKinds
 )
 
@@ -102,7 +103,7 @@ var rawTargets = map[int]string{kEncSlash: "/enc/a%2Fb", kEncByte: "/enc/%41lice
 
 func isRouteKind(k int) bool { return k <= kOwnNil || k >= kEncSlash }
 
-var kNames = [...]string{"route(inherits)", "route(own resolver ok)", "route(own resolver failing)", "route(resolver nil)", "redirect", "404", "405", "OPTIONS", "route(inherits) escaped slash", "route(inherits) escaped byte", "route(inherits) with query", "route(inherits) delegating to a mounted router"}
+var kNames = [...]string{"route(inherits)", "route(own resolver ok)", "route(own resolver failing)", "route(resolver nil)", "redirect", "404", "405", "OPTIONS", "route(inherits) escaped slash", "route(inherits) escaped byte", "route(inherits) with query", "route(inherits) delegating to a mounted router", "route(inherits) attaching another writer (SetWriter)"}
 
 // behaviours of the route handler
 type behaviour struct {
@@ -116,6 +117,7 @@ type world struct {
 	seq        int
 	handlerEnd int
 	beh        behaviour
+	curRW      *fx.RW // the writer handed to ServeHTTP for the request being served
 }
 
 func newWorld(g int) *world {
@@ -178,6 +180,12 @@ func newWorld(g int) *world {
 		}
 		must(inner.Handle("GET", "/mnt/{x}", h))
 		must(f.Handle("GET", "/mnt/{x}", func(c fox.Context) { inner.ServeHTTP(c.Writer(), c.Request()) }))
+		// the handler attaches a writer of its own (with its own status accounting) on top of the connection, as a
+		// compressing or buffering wrapper does: what is recorded is what that writer recorded
+		must(f.Handle("GET", "/sw/{x}", func(c fox.Context) {
+			c.SetWriter(fx.WrapRW(w.curRW))
+			h(c)
+		}))
 		return f
 	}
 	w.f = build(true)
@@ -211,6 +219,8 @@ func request(kind int, remote string) (string, string) {
 		return "GET", "/plain"
 	case kMounted:
 		return "GET", "/mnt/v"
+	case kSetWriter:
+		return "GET", "/sw/v"
 	}
 	return "OPTIONS", "/plain"
 }
@@ -289,6 +299,7 @@ func (w *world) evalStep(g int, st Step) (string, string) {
 		}
 		r.RemoteAddr = remotes[st.Remote]
 		rw = fx.NewRW()
+		w.curRW = rw
 		defer func() { pv = recover() }()
 		if st.Beh.Kind == "flush-then-status" {
 			f.ServeHTTP(flushingRW{rw}, r)
